@@ -151,7 +151,60 @@ def run_shard(shard):
                        "value": "z"})
     if lo == 0:
         formats_family(st)
+        alias_key_family(st)
     return st
+
+
+ALIAS_KEY_DOCS = [
+    # (document, path set, key list of the mapping holding the aliased key
+    #  - "NEW" stands for the new value -, where that mapping is)
+    ("cur: &E prod\nrep:\n  *E : 3\n  staging: 2\n  dev: 1\nl: [*E, x]\n",
+     "/cur", ["NEW", "staging", "dev"], ("rep",)),
+    ("cur: &E prod\nrep:\n  first: 0\n  *E : 3\n  dev: 1\n",
+     "/cur", ["first", "NEW", "dev"], ("rep",)),
+    ("l: [&E prod, {*E : 3, z: 1}, *E]\n",
+     "/l[0]", ["NEW", "z"], ("l", 1)),
+]
+
+
+def alias_key_family(st):
+    """An alias of the changed scalar used as a mapping KEY is renamed in
+    place: the mapping keeps the order of its keys (in memory - and after a
+    dump and reload where the unedited document survives one)."""
+    from yamlpath import Processor
+    for text, ptext, keys, where in ALIAS_KEY_DOCS:
+        for value in ("blue", "a b", 7):
+            st.evaluations += 1
+            st.transitions += 1
+            st.validated += 1
+            doc = corpus.load(text)
+            case = {"doc": text, "op": "set-alias-key", "path": ptext,
+                    "segs": None, "value": value}
+            try:
+                Processor(corpus.LOG, doc).set_value(ptext, value,
+                                                     mustexist=True)
+            except Exception as ex:       # pylint: disable=broad-except
+                st.fail("set-alias-key|%s" % type(ex).__name__, case,
+                        "the value is set", repr(ex)[:200])
+                continue
+            st.states += 1
+            st.sig("set-alias-key", text, type(value).__name__)
+            want = [value if k == "NEW" else k for k in keys]
+            stages = [("in memory", doc)]
+            try:
+                stages.append(("after dump and reload",
+                               corpus.load(editrun.dump(doc))))
+            except Exception:             # pylint: disable=broad-except
+                st.extra["alias_key_document_not_dumpable"] += 1
+            for stage, data in stages:
+                node = data
+                for ref in where:
+                    node = node[ref]
+                got = [_pv(k) for k in node.keys()]
+                if got != want:
+                    st.fail("set-alias-key|key-order|%s" % stage, case,
+                            repr(want), repr(got))
+                    break
 
 
 COLL_NAV = (("key", "a"), ("key", "b"), ("idx", 0), ("idx", 1))
@@ -505,6 +558,14 @@ def history(seed_index, depth):
 
 def replay(case):
     st = core.Stats(None)
+    if case.get("op") == "set-alias-key":
+        alias_key_family(st)
+        for lst in st.fails.values():
+            for f in lst:
+                if f["case"]["doc"] == case["doc"] and \
+                        f["case"]["value"] == case["value"]:
+                    return f
+        return None
     if case.get("op") == "set-format":
         formats_family(st)
         for lst in st.fails.values():
